@@ -40,3 +40,48 @@ package schema
 //@           (exists i int :: 0 <= i && i < loopk && changes[j] == old[Change](cs[i]) && !old[bool](GvcSkipped(o, cs[i]))))
 //@   loop 1 invariant (forall i int :: 0 <= i && i < loopk && !old[bool](GvcSkipped(o, cs[i])) ==>
 //@           (exists j int :: old(len(changes)) <= j && j < len(changes) && changes[j] == old[Change](cs[i])))
+
+// ---------------------------------------------------------------------------------------
+// C19: excluded resources
+
+//@ spec func gvcFM[T any](f func(T) (bool, error), x T) bool { m, _ := f(x); return m }
+//@ spec func gvcFE[T any](f func(T) (bool, error), x T) error { _, e := f(x); return e }
+//@ spec func gvcMatch(p, n string) bool { m, _ := filepath.Match(p, n); return m }
+//@ spec func gvcMatchErr(p, n string) error { _, e := filepath.Match(p, n); return e }
+//@ spec func gvcSelGlob(typ, pattern string) string { g, _ := excludeType(typ, pattern); return g }
+//@ spec func gvcSel(typ, pattern string) bool { _, ok := excludeType(typ, pattern); return ok }
+
+//@ func excludeType(t, v string) (g string, ok bool)
+//@   trusted
+//@   pure
+
+//@ func filter[T any](s []T, f func(T) (bool, error)) (r []T, err error)
+//@   inline
+//@   requires f != nil
+//@   ensures all-ok: err == nil ==> (forall i int :: 0 <= i && i < len(s) ==> gvcFE(f, old[T](s[i])) == nil)
+//@   ensures kept: err == nil ==> (forall i int :: 0 <= i && i < len(s) && !gvcFM(f, old[T](s[i])) ==> (exists j int :: 0 <= j && j < len(r) && any(r[j]) == any(old[T](s[i]))))
+//@   ensures only-unmatched: err == nil ==> (forall j int :: 0 <= j && j < len(r) ==> (exists i int :: 0 <= i && i < len(s) && any(r[j]) == any(old[T](s[i])) && !gvcFM(f, old[T](s[i]))))
+//@   ensures error: err != nil ==> len(r) == 0 && (exists i int :: 0 <= i && i < len(s) && gvcFE(f, old[T](s[i])) == err)
+//@   ensures fresh: err == nil ==> GvcFresh(r)
+//@   loop 1 localwrites
+//@   loop 1 invariant 0 <= loopk && loopk <= len(s) && GvcFresh(r)
+//@   loop 1 invariant (forall i int :: 0 <= i && i < loopk ==> gvcFE(f, old[T](s[i])) == nil)
+//@   loop 1 invariant (forall i int :: 0 <= i && i < loopk && !gvcFM(f, old[T](s[i])) ==> (exists j int :: 0 <= j && j < len(r) && any(r[j]) == any(old[T](s[i]))))
+//@   loop 1 invariant (forall j int :: 0 <= j && j < len(r) ==> (exists i int :: 0 <= i && i < loopk && any(r[j]) == any(old[T](s[i])) && !gvcFM(f, old[T](s[i]))))
+
+//@ func excludeT(t *Table, pattern string) (err error)
+//@   requires t != nil
+//@   requires (forall i int :: 0 <= i && i < len(t.Columns) ==> t.Columns[i] != nil)
+//@   requires (forall i int :: 0 <= i && i < len(t.Indexes) ==> t.Indexes[i] != nil)
+//@   requires (forall i int :: 0 <= i && i < len(t.ForeignKeys) ==> t.ForeignKeys[i] != nil)
+//@   requires (forall i int :: 0 <= i && i < len(t.Triggers) ==> t.Triggers[i] != nil)
+//@   modifies *t
+//@   ensures column-errors-propagate: err == nil && gvcSel("column", pattern) ==>
+//@           (forall i int :: 0 <= i && i < old(len(t.Columns)) ==> gvcMatchErr(gvcSelGlob("column", pattern), old[string](t.Columns[i].Name)) == nil)
+//@   ensures trigger-errors-propagate: err == nil && gvcSel("trigger", pattern) ==>
+//@           (forall i int :: 0 <= i && i < old(len(t.Triggers)) ==> gvcMatchErr(gvcSelGlob("trigger", pattern), old[string](t.Triggers[i].Name)) == nil)
+//@   ensures unmatched-columns-retained: err == nil ==>
+//@           (forall i int :: 0 <= i && i < old(len(t.Columns)) && !(gvcSel("column", pattern) && gvcMatch(gvcSelGlob("column", pattern), old[string](t.Columns[i].Name))) ==>
+//@              (exists j int :: 0 <= j && j < len(t.Columns) && t.Columns[j] == old[*Column](t.Columns[i])))
+//@   ensures only-unmatched-columns-remain: err == nil && gvcSel("column", pattern) ==>
+//@           (forall j int :: 0 <= j && j < len(t.Columns) ==> !gvcMatch(gvcSelGlob("column", pattern), t.Columns[j].Name))
